@@ -525,3 +525,24 @@ impl<T: Types> RaftLog<T> {
         end - first_closed_start
     }
 }
+
+/// Read-only observation hooks for the external verification harness.
+#[cfg(feature = "verif-hooks")]
+impl<T: Types> RaftLog<T> {
+    /// Non-blocking twin of [`Self::wait_worker_idle`]: `true` iff the
+    /// FlushWorker has processed every request sent so far.
+    pub fn verif_worker_idle(&self) -> bool {
+        self.wal.verif_worker_idle()
+    }
+
+    /// The `(log id, payload size)` of every entry resident in the payload
+    /// cache, in cache order.
+    pub fn verif_cache_resident(&self) -> Vec<(T::LogId, u64)> {
+        let cache = self.state_machine.payload_cache.read().unwrap();
+        cache
+            .cache
+            .iter()
+            .map(|(log_id, payload)| (log_id.clone(), T::payload_size(payload)))
+            .collect()
+    }
+}
